@@ -15,7 +15,7 @@ pub const DEF: PropDef = PropDef {
     exhaustive: true,
 };
 
-pub const FORMS: &[&str] = &["put E into T", "let T be E", "let T be with E", "let T be times E", "T is E", "rock T with E", "rock T with E, 1", "T says hello there", "rock T like a rolling stone", "rock T", "T is a wordy literal"];
+pub const FORMS: &[&str] = &["put E into T", "let T be E", "let T be with E", "let T be times E", "T is E", "rock T with E", "rock T with E, 1", "let T be E, 1", "let T be 1, E", "put E, 1 into T", "T says hello there", "rock T like a rolling stone", "rock T", "T is a wordy literal"];
 pub const TARGETS: &[&str] = &["x", "the zed", "Zed Yod", "it", "x at 0"];
 pub const RHS: &[&str] = &[
     "0", "5", "10", "100", "105.25", "0.5", "1e21", "0.1 plus 0.2", "2 times 3, 4", "0 - 5", "-5", "-0", "0 times -2", "0 over -5", "0.0", "1 over 0", "0 over 0", "-1 over 0", "1e308 times 10", "1 over 3", "123456789012345678", "0.1", "1e16", "10 without 1, 2", "100 over 5, 2", "2 times 3, 4 plus 1", "\"\"", "\"a b\"", "\"a, b! (c)\"", "\"a\nb\"", "empty", "y",
